@@ -2,6 +2,7 @@ package main
 
 import (
 	"go/ast"
+	"strings"
 )
 
 func init() { generators = append(generators, genIndexSig) }
@@ -170,6 +171,20 @@ func genIndexSig() {
 			problem("index.go: signature block not found in parseRepositoryIndex")
 		}
 		l.defStrList("pri_tail", tail)
+	}
+	// RSAVerifyDigest (pkg/apk/signature/rsa.go): the chain of checks between the key FILE and the RSA verification,
+	// statement by statement (messages blanked): Model/IndexSig.lean `rsaVerifyDigest` mirrors exactly this chain
+	{
+		rf := load("pkg/apk/signature/rsa.go")
+		var st []string
+		if fd := rf.fn("RSAVerifyDigest"); fd != nil {
+			for _, s := range fd.Body.List {
+				st = append(st, strings.Join(strings.Fields(noStrings(rf.src(s))), " "))
+			}
+		} else {
+			problem("index.go: RSAVerifyDigest not found in pkg/apk/signature/rsa.go")
+		}
+		l.defStrList("stmts_RSAVerifyDigest", st)
 	}
 	l.write()
 
